@@ -33,10 +33,10 @@ E = [
  ("M10c", "mutant", ["C10"], D+"dynamic.go", "err = w.compressBlock(true, false)", "err = w.compressBlock(false, false)"),
  ("M12b", "mutant", ["C12"], D+"dynamic.go", "\tw.buf.reset()\n\tw.lz77.reset()", "\tw.buf.reset()"),
  ("M12c", "mutant", ["C12"], D+"huffmanonly.go", "\th.buf.reset()\n\th.offset = 0", "\th.buf.reset()"),
- ("M13c", "mutant", ["C13"], F+"reader.go", "\tr.eof = false\n\tr.err = nil", "\tr.err = nil"),
+ ("M13c", "mutant", ["C13"], F+"reader.go", "\tr.eof = false\n\tr.starved = true\n\tr.err = nil", "\tr.starved = true\n\tr.err = nil"),
  ("M14a", "mutant", ["C14"], D+"writer.go", "\t\t\tif err != nil {\n\t\t\t\tw.err = err\n\t\t\t\treturn num, err", "\t\t\tif err != nil {\n\t\t\t\treturn num, err"),
  ("M14c", "mutant", ["C14"], G+"gzip.go", "\tz.err = z.compressor.Close()\n\tif z.err != nil {\n\t\treturn z.err\n\t}", "\tz.compressor.Close()"),
- ("M15a", "mutant", ["C15"], F+"reader.go", "if err != nil && err != bufio.ErrBufferFull && err != io.EOF {\n\t\t\treturn err\n\t\t}\n\t\tf.eof = err == io.EOF", "f.eof = err != nil"),
+ ("M15a", "mutant", ["C15"], F+"reader.go", "if err != nil && err != io.EOF {\n\t\t\treturn err\n\t\t}\n\t\tf.eof = err == io.EOF", "f.eof = err != nil"),
  ("M16a", "mutant", ["C16"], G+"gzip.go", "\tz.closed = true\n\tif !z.wroteHeader {", "\tif !z.wroteHeader {"),
  ("M16b", "mutant", ["C16"], D+"writer.go", "\tcase 1, 2:\n\t\tw.lc = NewDynCompressor(under, level, 32*1024)", "\tcase 1, 2, 10:\n\t\tw.lc = NewDynCompressor(under, level, 32*1024)"),
  ("M17a", "mutant", ["C17"], F+"header.go", "func (state *inflate) codeLenCodes(hclen int) error {\n\tvar codeHuff [codeLenCodes]huffCode", "var sharedCodeHuff [codeLenCodes]huffCode\n\nfunc (state *inflate) codeLenCodes(hclen int) error {\n\tcodeHuff := &sharedCodeHuff\n\t*codeHuff = [codeLenCodes]huffCode{}"),
@@ -60,7 +60,7 @@ E = [
  ("B10", "benign", [], D+"lz77.go", "\t\tif uint32(dist-1) < uint32(historySize) {", "\t\tif dist >= 1 && dist <= uint32(historySize) {"),
  ("B11", "benign", [], Z+"reader.go", "\tif _, err := io.ReadFull(z.r, z.scratch[0:4]); err != nil {\n\t\tif err == io.EOF {\n\t\t\terr = io.ErrUnexpectedEOF\n\t\t}\n\t\tz.err = err\n\t\treturn n, z.err\n\t}", "\tif _, err := io.ReadFull(z.r, z.scratch[0:4]); err != nil {\n\t\tz.err = err\n\t\tif err == io.EOF {\n\t\t\tz.err = io.ErrUnexpectedEOF\n\t\t}\n\t\treturn n, z.err\n\t}"),
  ("B12", "benign", [], D+"dynamic.go", "\t\tif last && idx == len(c.tokens) {\n\t\t\tc.buf.flushLastByte()\n\t\t}", "\t\tif idx == len(c.tokens) && last {\n\t\t\tc.buf.flushLastByte()\n\t\t}"),
- ("M01d", "mutant", ["C01"], D+"writer.go", "\tif w.w != nil {\n\t\treturn w.w.Flush()\n\t}\n", ""),
+ ("M01d", "mutant", ["C01"], D+"writer.go", "\tif w.w != nil {\n\t\tw.err = w.w.Flush()\n\t\treturn w.err\n\t}\n", ""),
  ("M03e", "mutant", ["C03", "C18"], F+"decode_amd64.s", "invalid_look_back_distance:\n        SUBQ R15, R10\n        MOVQ $-3, AX", "invalid_look_back_distance:\n        SUBQ R15, R10\n        MOVQ $-4, AX"),
  ("M04c", "mutant", ["C04"], F+"inflate.go", "\t\tsize := copy(state.headerBuffer[state.headerBuffered:], input)", "\t\tsize := copy(state.headerBuffer[:], input)"),
  ("M04d", "mutant", ["C04"], F+"reader.go", "\t\t\t_, err := f.rBuf.Discard(discardSize)\n\t\t\tif err != nil {\n\t\t\t\treturn err\n\t\t\t}\n\t\t}\n\t\tf.state.input = nil\n\t}\n\treturn", "\t\t\tfor i := 0; i < discardSize; i++ {\n\t\t\t\tif _, err := f.rBuf.ReadByte(); err != nil {\n\t\t\t\t\treturn err\n\t\t\t\t}\n\t\t\t}\n\t\t}\n\t\tf.state.input = nil\n\t}\n\treturn"),
@@ -79,31 +79,29 @@ E = [
  ("M19c", "mutant", ["C19"], D+"lz77.go", "\t\tif uint32(dist-1) < uint32(historySize) {", "\t\tif uint32(dist-1) <= uint32(historySize) {"),
  ("B13", "benign", [], G+"gzip.go", "\t\tif z.Extra != nil {\n\t\t\tz.buf[3] |= 0x04\n\t\t}", "\t\tif z.Extra != nil {\n\t\t\tz.buf[3] |= flagExtra\n\t\t}"),
  ("B14", "benign", [], D+"writer.go", "\tw.err = w.lc.Flush()\n\treturn w.err\n}", "\tif err := w.lc.Flush(); err != nil {\n\t\tw.err = err\n\t\treturn err\n\t}\n\treturn nil\n}"),
- ("B15", "benign", [], D+"writer.go", "\tw.err = w.lc.Close()\n\tif w.err != nil {\n\t\treturn w.err\n\t}\n\tw.err = errWriterClosed\n\treturn nil", "\tif err := w.lc.Close(); err != nil {\n\t\tw.err = err\n\t\treturn err\n\t}\n\tw.err = errWriterClosed\n\treturn nil"),
  ("B16", "benign", [], F+"reader.go", "\t\tif f.writePos-f.readPos > 0 {\n\t\t\tnum := copy(b,", "\t\tif f.writePos > f.readPos {\n\t\t\tnum := copy(b,"),
  ("B17", "benign", [], F+"reader.go", "\t\t_, err = f.rBuf.Peek(int(state.bitsLen/8) + 1)", "\t\tneed := int(state.bitsLen/8) + 1\n\t\t_, err = f.rBuf.Peek(need)"),
  ("B18", "benign", [], D+"dynamic.go", "\terr = w.compressBlock(true, false)\n\tif err != nil {\n\t\treturn err\n\t}\n\t// write one zero", "\tif err = w.compressBlock(true, false); err != nil {\n\t\treturn\n\t}\n\t// write one zero"),
  ("B19", "benign", [], F+"header.go", "\tfor i := range t.ShortCodeLookup[:copySize] {\n\t\tt.ShortCodeLookup[i] = 0\n\t}", "\tfor i := 0; i < copySize; i++ {\n\t\tt.ShortCodeLookup[i] = 0\n\t}"),
  ("B20", "benign", [], F+"reader.go", "\tif err == errInvalidBlock || err == errInvalidSymbol || err == errInvalidLookBack {\n\t\treturn true\n\t}\n\treturn false", "\tswitch err {\n\tcase errInvalidBlock, errInvalidSymbol, errInvalidLookBack:\n\t\treturn true\n\t}\n\treturn false"),
  ("B21", "benign", [], F+"decode_amd64.go", "\t\t\tswitch errno {\n\t\t\tcase errorNoInvalidBlock:\n\t\t\t\terr = errInvalidBlock\n\t\t\tcase errorNoInvalidSymbol:\n\t\t\t\terr = errInvalidSymbol\n\t\t\tcase errorNoInvalidLookback:\n\t\t\t\terr = errInvalidLookBack\n\t\t\tcase errorNoOutOverflow:\n\t\t\t\terr = errOutputOverflow\n\t\t\tdefault:\n\t\t\t\terr = errInvalidBlock\n\t\t\t}", "\t\t\tif errno == errorNoInvalidSymbol {\n\t\t\t\terr = errInvalidSymbol\n\t\t\t} else if errno == errorNoInvalidLookback {\n\t\t\t\terr = errInvalidLookBack\n\t\t\t} else if errno == errorNoOutOverflow {\n\t\t\t\terr = errOutputOverflow\n\t\t\t} else {\n\t\t\t\terr = errInvalidBlock\n\t\t\t}"),
- ("B22", "benign", [], F+"reader.go", "\trr.r = r\n\tif ur, ok := r.(*bufio.Reader); ok {\n\t\t// bufio.NewReader would put a second buffer in front of a small one\n\t\trr.rBuf = ur\n\t} else {\n\t\trr.rBuf = bufio.NewReader(r)\n\t}\n\treturn rr", "\trr.Reset(r, nil)\n\treturn rr"),
+ ("B22", "benign", [], F+"reader.go", "\trr.r = r\n\tif ur, ok := r.(*bufio.Reader); ok {\n\t\t// bufio.NewReader would put a second buffer in front of a small one\n\t\trr.rBuf = ur\n\t} else {\n\t\trr.own = bufio.NewReader(r)\n\t\trr.rBuf = rr.own\n\t}\n\treturn rr", "\trr.Reset(r, nil)\n\treturn rr"),
  ("B23", "benign", [], D+"lz77.go", "\t\ttokens = append(tokens, newToken(lit, InvalidDist, 0))\n\t\thist.literalCodes[lit]++\n\t\tif len(tokens) > maxToken {\n\t\t\treturn offset, tokens\n\t\t}\n\t}\n\tif flush {", "\t\ttokens = append(tokens, newToken(lit, InvalidDist, 0))\n\t\thist.literalCodes[lit] += 1\n\t\tif len(tokens) > maxToken {\n\t\t\treturn offset, tokens\n\t\t}\n\t}\n\tif flush {"),
  ("B24", "benign", [], D+"huffmanonly.go", "func (h *huffmanOnly) Accumulate(data []byte) (n int, trigger bool) {\n", "func (h *huffmanOnly) Accumulate(data []byte) (n int, trigger bool) {\n\tif len(data) == 0 {\n\t\treturn 0, false\n\t}\n"),
  ("B25", "benign", [], G+"ungzip.go", "\t\tif digest != z.digest || size != z.size {\n\t\t\tz.err = ErrChecksum\n\t\t\treturn n, z.err\n\t\t}", "\t\tif digest != z.digest {\n\t\t\tz.err = ErrChecksum\n\t\t\treturn n, z.err\n\t\t}\n\t\tif size != z.size {\n\t\t\tz.err = ErrChecksum\n\t\t\treturn n, z.err\n\t\t}"),
  ("B26", "benign", [], Z+"writer.go", "\tz.err = nil\n\tz.scratch = [4]byte{}\n\tz.wroteHeader = false", "\tz.wroteHeader = false\n\tz.scratch = [4]byte{}\n\tz.err = nil"),
  ("B27", "benign", [], D+"level_amd64.go", "func (c *level1context) generate(flush bool, input []byte, processed int, offset int, tokens []token, maxToken int) (nOffset int, ntokens []token) {\n\tif cpu.ArchLevel < 3 || len(tokens)+safeLZ77Boundary > cap(tokens) {", "func (c *level1context) generate(flush bool, input []byte, processed int, offset int, tokens []token, maxToken int) (nOffset int, ntokens []token) {\n\tuseAsm := cpu.ArchLevel >= 3 && len(tokens)+safeLZ77Boundary <= cap(tokens)\n\tif !useAsm {"),
- ("B28", "benign", [], Z+"reader.go", "\tif z.decompressor == nil || haveDict {\n\t\t// Only the inflater made by NewReaderDict honours a dictionary.\n\t\tif haveDict {\n\t\t\tz.decompressor = flate.NewReaderDict(z.r, dict)\n\t\t} else {\n\t\t\tz.decompressor = flate.NewReader(z.r)\n\t\t}\n\t} else {\n\t\tz.decompressor.(flate.Resetter).Reset(z.r, nil)\n\t}", "\tswitch {\n\tcase haveDict:\n\t\t// Only the inflater made by NewReaderDict honours a dictionary.\n\t\tz.decompressor = flate.NewReaderDict(z.r, dict)\n\tcase z.decompressor == nil:\n\t\tz.decompressor = flate.NewReader(z.r)\n\tdefault:\n\t\tz.decompressor.(flate.Resetter).Reset(z.r, nil)\n\t}"),
  ("B29", "benign", [], D+"bitbuf.go", "func (b *BitBuf) reset() {\n\tb.idx = 0\n\tb.bits = 0\n\tb.bitLen = 0\n}", "func (b *BitBuf) reset() {\n\tb.idx, b.bits, b.bitLen = 0, 0, 0\n}"),
  ("B30", "benign", [], G+"gzip.go", "\tif z.err != nil {\n\t\treturn z.err\n\t}\n\tif z.closed {\n\t\treturn nil\n\t}\n\tz.closed = true", "\tif z.err != nil {\n\t\treturn z.err\n\t}\n\tif !z.closed {\n\t\tz.closed = true\n\t} else {\n\t\treturn nil\n\t}"),
  ("B31", "benign", [], D+"huffmanonly.go", "\t\tif num == h.offset && final {\n\t\t\th.buf.flushLastByte()\n\t\t}", "\t\tif final {\n\t\t\tif num == h.offset {\n\t\t\t\th.buf.flushLastByte()\n\t\t\t}\n\t\t}"),
  ("B32", "benign", [], F+"huffcode.go", "\tif codeListLen == 0 {\n\t\tfor i := range t.shortCodeLookup {\n\t\t\tt.shortCodeLookup[i] = 0\n\t\t}\n\t\treturn\n\t}", "\tif codeListLen == 0 {\n\t\tt.shortCodeLookup = [1 << 12]uint32{}\n\t\treturn\n\t}"),
- ("B33", "benign", [], F+"inflate.go", "\tif max > (1 << maxHuffTreeDepth) {\n\t\treturn errorNoInvalidBlock\n\t}\n\tfor i := 0; i < len(table); i++ {", "\tif uint64(max) > (1 << maxHuffTreeDepth) {\n\t\treturn errorNoInvalidBlock\n\t}\n\tfor i := 0; i < len(table); i++ {"),
+ ("B33", "benign", [], F+"inflate.go", "\treturn kraft == 1<<maxHuffTreeDepth || kraft == 0 ||", "\treturn uint64(kraft) == 1<<maxHuffTreeDepth || kraft == 0 ||"),
  ("B34", "benign", [], F+"decode.go", "\t\t\t} else if nextLit <= maxLitLenSym {", "\t\t\t} else if nextLit < maxLitLenSym+1 {"),
  ("B35", "benign", [], F+"header.go", "\tstate.dynHdr.litCount = [maxLitLenCount]uint16{}\n", "\tfor i := range state.dynHdr.litCount {\n\t\tstate.dynHdr.litCount[i] = 0\n\t}\n"),
  ("B36", "benign", [], D+"dynamic.go", "\tn = copy(c.buffer[c.end:2*c.windowSize+maxMatchLength], data)\n\tc.end += n\n\tif c.end < 2*c.windowSize+maxMatchLength {\n\t\treturn\n\t}\n\treturn n, true", "\tlimit := 2*c.windowSize + maxMatchLength\n\tn = copy(c.buffer[c.end:limit], data)\n\tc.end += n\n\tif c.end >= limit {\n\t\treturn n, true\n\t}\n\treturn n, false"),
  ("B37", "benign", [], D+"huffmanonly.go", "\tif h.offset == h.max {\n\t\treturn n, true\n\t}\n\treturn n, false", "\tif h.offset >= h.max {\n\t\treturn n, true\n\t}\n\treturn n, false"),
  ("B38", "benign", [], D+"dynamic.go", "\tif len(w.tokens) < maxTokenSize && !flush {\n\t\treturn\n\t}", "\tif !flush && len(w.tokens) < maxTokenSize {\n\t\treturn\n\t}"),
- ("B39", "benign", [], F+"reader.go", "\tif ur, ok := under.(*bufio.Reader); ok {\n\t\tr.rBuf = ur\n\t} else {\n\t\tif r.rBuf != nil {\n\t\t\tr.rBuf.Reset(under)\n\t\t} else {\n\t\t\tr.rBuf = bufio.NewReader(under)\n\t\t}\n\t}\n", "\tur, ok := under.(*bufio.Reader)\n\tswitch {\n\tcase ok:\n\t\tr.rBuf = ur\n\tcase r.rBuf != nil:\n\t\tr.rBuf.Reset(under)\n\tdefault:\n\t\tr.rBuf = bufio.NewReader(under)\n\t}\n"),
+ ("B39", "benign", [], F+"reader.go", "\tif ur, ok := under.(*bufio.Reader); ok {\n\t\tr.rBuf = ur\n\t} else {\n\t\tif r.own != nil {\n\t\t\tr.own.Reset(under)\n\t\t} else {\n\t\t\tr.own = bufio.NewReader(under)\n\t\t}\n\t\tr.rBuf = r.own\n\t}\n", "\tur, ok := under.(*bufio.Reader)\n\tswitch {\n\tcase ok:\n\t\tr.rBuf = ur\n\tcase r.own != nil:\n\t\tr.own.Reset(under)\n\t\tr.rBuf = r.own\n\tdefault:\n\t\tr.own = bufio.NewReader(under)\n\t\tr.rBuf = r.own\n\t}\n"),
  ("B40", "benign", [], Z+"writer.go", "\tz.wroteHeader = true\n\t// ZLIB has a two-byte header (as documented in RFC 1950).", "\t// ZLIB has a two-byte header (as documented in RFC 1950).\n\tz.wroteHeader = true"),
  ("B41", "benign", [], F+"decode_amd64.s", "invalid_look_back_distance:\n        SUBQ R15, R10\n        MOVQ $-3, AX", "invalid_look_back_distance:\n        MOVQ $-3, AX\n        SUBQ R15, R10"),
  ("B42", "benign", [], D+"encode_amd64.go", "\tif len(tokens) == 0 {\n\t\treturn 0\n\t}", "\tif len(tokens) < 1 {\n\t\treturn 0\n\t}"),
@@ -114,6 +112,9 @@ E = [
  ("M11c", "mutant", ["C11"], F+"reader.go", "\tif state.input == nil && state.phase == phaseStreamEnd {\n\t\t// the final block is decoded: what is left is handed out without asking the source for more\n\t\tf.peekSize = 0\n\t} else if state.input == nil {", "\tif state.input == nil {"),
  ("B47", "benign", [], F+"reader.go", "\tif state.input == nil && state.phase == phaseStreamEnd {\n\t\t// the final block is decoded: what is left is handed out without asking the source for more\n\t\tf.peekSize = 0\n\t} else if state.input == nil {", "\tif state.phase == phaseStreamEnd && state.input == nil {\n\t\tf.peekSize = 0\n\t}\n\tif state.phase != phaseStreamEnd && state.input == nil {"),
  ("B48", "benign", [], F+"reader.go", "\tif state.input == nil && state.phase == phaseStreamEnd {\n\t\t// the final block is decoded: what is left is handed out without asking the source for more\n\t\tf.peekSize = 0\n\t} else if state.input == nil {", "\tatEnd := state.phase == phaseStreamEnd\n\tif state.input == nil && atEnd {\n\t\tf.peekSize = 0\n\t} else if state.input == nil {"),
+ ("B49", "benign", [], D+"writer.go", "\tif w.closed {\n\t\treturn nil\n\t}\n\tif w.err != nil {\n\t\treturn w.err\n\t}", "\tswitch {\n\tcase w.closed:\n\t\treturn nil\n\tcase w.err != nil:\n\t\treturn w.err\n\t}"),
+ ("B50", "benign", [], Z+"reader.go", "\t\tif haveDict {\n\t\t\tz.decompressor = flate.NewReaderDict(z.r, dict)\n\t\t} else {\n\t\t\tz.decompressor = flate.NewReader(z.r)\n\t\t}\n\t\tz.dictInflater = haveDict", "\t\tz.dictInflater = haveDict\n\t\tif !haveDict {\n\t\t\tz.decompressor = flate.NewReader(z.r)\n\t\t} else {\n\t\t\tz.decompressor = flate.NewReaderDict(z.r, dict)\n\t\t}"),
+ ("B51", "benign", [], F+"reader.go", "\t\tif f.starved {", "\t\tif wait := f.starved; wait {"),
 ]
 
 def sh(cmd, cwd=None):
